@@ -138,3 +138,38 @@ func Guard(max time.Duration, progress func() int64, f func()) GuardVerdict {
 		}
 	}
 }
+
+// StuckInNbio decides, for a case whose own watchdog has expired, whether the
+// process is in a final blocked state: over 5 s the progress counter did not
+// move, the process used less than 2 % of a core, and the same non-empty set
+// of goroutines sits blocked on a lock inside nbio frames in both dumps. It
+// returns the stacks of those goroutines; ok == false means "not decided".
+func StuckInNbio(progress func() int64) (ok bool, detail string) {
+	p0 := progress()
+	d1 := Stacks()
+	c0 := CPUTime()
+	t0 := time.Now()
+	time.Sleep(5 * time.Second)
+	d2 := Stacks()
+	cpu := CPUTime() - c0
+	el := time.Since(t0)
+	a, b := blockedInNbio(d1), blockedInNbio(d2)
+	if len(b) == 0 || progress() != p0 || strings.Join(a, ",") != strings.Join(b, ",") || float64(cpu) > 0.02*float64(el) {
+		return false, ""
+	}
+	in := map[string]bool{}
+	for _, id := range b {
+		in[id] = true
+	}
+	var sel []string
+	for _, p := range strings.Split(d2, "\n\n") {
+		m := reGoroutineHdr.FindStringSubmatch(p)
+		if m != nil && in[m[1]] && len(sel) < 6 {
+			if len(p) > 1500 {
+				p = p[:1500]
+			}
+			sel = append(sel, p)
+		}
+	}
+	return true, fmt.Sprintf("goroutines %v are blocked on a lock inside nbio in two dumps 5 s apart, no progress, process idle:\n%s", b, strings.Join(sel, "\n\n"))
+}
